@@ -504,9 +504,16 @@ where
 	let mut missing_outs = vec![];
 	let mut accidental_spend_outs = vec![];
 	let mut locked_outs = vec![];
+	// highest child index found on chain per account: every output counts, also one that an
+	// earlier (interrupted) scan has already restored
+	let mut found_parents: HashMap<Identifier, u32> = HashMap::new();
 
 	// check all definitive outputs exist in the wallet outputs
 	for deffo in chain_outs.into_iter() {
+		let max_child_index = found_parents.entry(deffo.key_id.parent_path()).or_insert(0);
+		if deffo.n_child > *max_child_index {
+			*max_child_index = deffo.n_child;
+		}
 		let matched_out = wallet_outputs.iter().find(|wo| wo.commit == deffo.commit);
 		match matched_out {
 			Some(s) => {
@@ -540,8 +547,6 @@ where
 		batch.save(o)?;
 		batch.commit()?;
 	}
-
-	let mut found_parents: HashMap<Identifier, u32> = HashMap::new();
 
 	// Restore missing outputs, adding transaction for it back to the log
 	for m in missing_outs.into_iter() {
